@@ -8,6 +8,15 @@ CHECKS = {
                     'the real unmarshal inverts the real marshal and the byte counts agree; a bounded claim, '
                     'not a proof: signatures up to 3-4 type codes, containers up to 2 elements.',
             'ref': 'DESIGN.md 2/C01', 'note': NOTE, 'technique': SYM},
+    'C02': {'text': 'For each enumerated shape the solver shows, for ALL leaf values, that the bytes produced by the '
+                    'real marshal equal byte-for-byte those of an independent codec written from the specification, '
+                    'and that the real unmarshal decodes the reference encoding of all leaf values; plus the alignment '
+                    'rule for every type code over an UNBOUNDED offset. Bounded by the shape family.',
+            'ref': 'DESIGN.md 2/C02', 'note': NOTE, 'technique': SYM + ' against an independent reference codec'},
+    'C19': {'text': 'The real genCompleteTypes runs on a symbolic signature string (every string of length <= 5/7 the '
+                    'grammar accepts) and must equal an independent grammar-based decomposition; sigFromPy and the '
+                    'variant round trip are explored for 60 value shapes with symbolic leaves.',
+            'ref': 'DESIGN.md 2/C19', 'note': NOTE, 'technique': SYM},
 }
 _TODO = 'check not built yet in this revision (planned, see DESIGN.md section 2)'
 NOT_APPLICABLE = {('C%02d' % i): _TODO for i in range(1, 21)}
